@@ -58,7 +58,8 @@ def main():
     nsteps = sum(len(t['steps']) for t in traces)
     print('recorded %d traces, %d steps in %.1fs' % (len(traces), nsteps, time.time() - t0))
     res, stats = tv.validate(traces, os.path.join(ROOT, '.work', 'tvsweep_%d' % os.getpid()))
-    print({k: v for k, v in stats.items() if k != 'errors'})
+    print({k: v for k, v in stats.items() if k not in ('errors', 'cases')})
+    print('least frequent cases:', sorted(stats.get('cases', {}).items(), key=lambda kv: kv[1])[:14])
     for e in stats['errors'][:3]:
         print('TLC ERROR', e[:3000])
     print(collections.Counter(r['k'] for r in res))
